@@ -64,6 +64,9 @@ type Prop struct {
 	New     func() any
 	Check   func(c any, st *Stats) error
 	Exclude func(c any) string // non-empty: case belongs to a known finding (excluded, counted)
+	// PreWrite: the case is written to $VERIF_FAILDIR/current.json before it runs, so that a
+	// process abort (race detector, fatal runtime error) still leaves a replay file.
+	PreWrite bool
 }
 
 var registry = map[string]*Prop{}
@@ -152,6 +155,14 @@ func RunCase(p *Prop, c any) error {
 		if tag := p.Exclude(c); tag != "" && excluded(tag) {
 			st.Count("excluded." + tag)
 			return nil
+		}
+	}
+	if p.PreWrite {
+		if dir := os.Getenv("VERIF_FAILDIR"); dir != "" {
+			if raw, merr := json.Marshal(c); merr == nil {
+				out, _ := json.Marshal(Replay{Property: p.ID, Case: raw, Error: "process aborted while this case was running (data race report or fatal runtime error)"})
+				os.WriteFile(filepath.Join(dir, "current.json"), out, 0o644)
+			}
 		}
 	}
 	err := SafeCheck(p, c, st)
